@@ -1076,6 +1076,383 @@ def engine_crash(pid, tier):
         shutil.rmtree(wd, ignore_errors=True)
 
 
+# ---------------------------------------------------------------- BYTES engine (C06)
+
+C06_CLASSES = ["random", "zeros", "ff", "digits", "utf8", "badutf8", "nuls"]
+
+
+def engine_bytes(pid, tier):
+    t0 = time.time()
+    rng = random.Random(seed() * 1000003 + 29)
+    binary = build_harness()
+    wd = workdir("bytes")
+    sizes_small = [1, 2, 3, 7, 16, 255, 256, 257, 1023, 1024]
+    page = list(range(4000, 4201)) if tier == "thorough" else list(range(4000, 4201, 3)) + [4096, 4095, 4097, 4088, 4089]
+    sizes_mid = [8191, 8192, 8193, 65535, 65536, 65537]
+    sizes_big = [1048575, 1048576, 1048577]
+    configs = [("inmemory", "http"), ("sqlite", "http"), ("sqlite", "sock"), ("inmemory", "sock"), ("sqlite", "lib")]
+    jobs, run0 = [], 1
+    seedc = [0]
+
+    def gen(cls, size):
+        seedc[0] += 1
+        return {"cls": cls, "size": size, "seed": seedc[0]}
+
+    def chain_job(payloads, backend, driver, tag):
+        """payloads: list of (cls, size, chunklist or None, as_snapshot)"""
+        nonlocal run0
+        steps = [{"op": "NewClient", "c": 1}] if driver == "lib" else []
+        first = True
+        for cls, size, chunks, snap in payloads:
+            st = {"op": "AddVersion", "c": 1, "arg": {"sym": "latest"}, "gen": gen(cls, size)}
+            if chunks and driver != "lib":
+                st["chunklist"] = chunks
+            steps.append(st)
+            steps.append({"op": "GetChildVersion", "c": 1, "arg": {"sym": "nil"} if first else {"sym": "anc", "k": 1}})
+            first = False
+            if snap:
+                st2 = {"op": "AddSnapshot", "c": 1, "arg": {"sym": "latest"}, "gen": gen(cls, size)}
+                if chunks and driver != "lib":
+                    st2["chunklist"] = chunks
+                steps += [st2, {"op": "GetSnapshot", "c": 1}]
+        steps.append({"op": "Reopen"})
+        steps.append({"op": "Walk", "c": 1, "from": {"sym": "base"}})
+        steps.append({"op": "GetSnapshot", "c": 1})
+        jobs.append({"id": f"{tag}{run0}", "run": run0, "backend": backend, "driver": driver, "cfg": {"days": 14, "versions": 100},
+                     "nclients": 1, "steps": steps, "first_free": 1, "kind": "bytes"})
+        run0 += 1
+
+    k = 0
+    for backend, driver in configs:
+        frac = 1.0 if (driver == "http" or tier == "thorough") else 0.35
+        # every size of the page-boundary region, classes cycling
+        sel = [sz for sz in sizes_small + page + sizes_mid if rng.random() < frac]
+        pl = []
+        for sz in sel:
+            cls = C06_CLASSES[k % len(C06_CLASSES)]
+            k += 1
+            pl.append((cls, sz, None, k % 3 == 0))
+        for i in range(0, len(pl), 20):
+            chain_job(pl[i:i + 20], backend, driver, "sz")
+        # all byte classes at a few sizes
+        pl = [(cls, sz, None, True) for cls in C06_CLASSES for sz in (1, 2, 300, 4096, 4100)]
+        for i in range(0, len(pl), 18):
+            chain_job(pl[i:i + 18], backend, driver, "cls")
+        if driver != "lib":
+            # every split position of short bodies; splits around the page / 64 KiB boundaries of long ones
+            pl = []
+            for n in (range(2, 14) if tier == "thorough" else (2, 3, 5, 8, 13)):
+                for cut in range(1, n):
+                    pl.append(("random", n, [cut], cut % 2 == 0))
+            for n, cuts in ((4100, [[1], [4095], [4096], [4097], [4099], [1, 4095], [2048, 2048]]),
+                            (65537, [[65535], [65536], [1, 65535], [32768, 32768], [4096] * 15]),
+                            (8192, [[4096], [4095, 2], [1, 1, 1]])):
+                for c in cuts:
+                    pl.append((rng.choice(C06_CLASSES), n, c, True))
+            for _ in range(10 if tier == "quick" else 60):
+                n = rng.choice([300, 4097, 5000, 70000])
+                cuts = sorted(rng.sample(range(1, n), rng.randint(1, 4)))
+                pl.append((rng.choice(C06_CLASSES), n, [b - a for a, b in zip([0] + cuts, cuts)], rng.random() < 0.5))
+            for i in range(0, len(pl), 16):
+                chain_job(pl[i:i + 16], backend, driver, "ch")
+        # 1 MiB +- 1 (own jobs: the payloads are held several times)
+        if (backend, driver) in (("sqlite", "http"), ("sqlite", "sock"), ("inmemory", "http")) or tier == "thorough":
+            chain_job([(rng.choice(C06_CLASSES), sz, ([524288] if driver != "lib" else None), True) for sz in sizes_big], backend, driver, "big")
+    if tier == "thorough":
+        lim = 100 * 1024 * 1024
+        for backend in ("sqlite", "inmemory"):
+            for sz in (lim - 1, lim):
+                chain_job([("random", sz, [lim // 2], False)], backend, "http", "huge")
+    plan = {"threads": 1, "needs_clock": False, "jobs": jobs}
+    t1 = time.time()
+    huge = [j for j in jobs if j["id"].startswith("huge")]
+    rest = [j for j in jobs if not j["id"].startswith("huge")]
+    summ, files = run_harness_sharded(binary, "seq", dict(plan, jobs=rest), wd)
+    if huge:
+        wd2 = os.path.join(wd, "huge")
+        os.makedirs(wd2)
+        s2, f2 = run_harness_sharded(binary, "seq", dict(plan, jobs=huge), wd2, nproc=2)
+        summ["summaries"] += s2["summaries"]
+        files += f2
+    t2 = time.time()
+    chunks = split_trace(files, os.path.join(wd, "chunks"), max_events=6000)
+    viols, total = judge(chunks, heap="4g")
+    t3 = time.time()
+    log(f"[bytes] plan {t1-t0:.1f}s harness {t2-t1:.1f}s judge {t3-t2:.1f}s events {total}")
+    found, notes, per_name = seq_collect(pid, viols, jobs, summ["summaries"], chunks)
+    # what was covered
+    distinct = set()
+    nround = 0
+    for j in jobs:
+        for st in j["steps"]:
+            if "gen" in st:
+                nround += 1
+                distinct.add((st["op"], st["gen"]["cls"], st["gen"]["size"], json.dumps(st.get("chunklist")), j["backend"], j["driver"]))
+    nev, ops, evs = count_events(chunks)
+    coverage = dict(evaluations=nround, distinct_nontrivial=len(distinct),
+                    rule="each payload (byte class x length x chunk splitting) is uploaded as a version and/or snapshot and read back through GetChildVersion / "
+                         "GetSnapshot / a chain walk, also after reopening; the harness maps returned bytes to the token of the upload they equal exactly "
+                         "(else -1); TLC checks on every step that the token, version id and parent id are those of the creating upload (C06_Step). "
+                         "distinct = distinct (operation, class, length, chunk list, backend, driver)",
+                    samples=[{"upload": next(st for st in j["steps"] if "gen" in st), "backend": j["backend"], "driver": j["driver"]} for j in (jobs[0], jobs[len(jobs) // 2], jobs[-1])],
+                    jobs=len(jobs), events_judged=total, outcome_counts={f"{op}/{k}": n for (op, k), n in sorted(ops.items())},
+                    lengths=dict(min=1, page_region=f"{min(page)}..{max(page)} ({len(page)} lengths)", max=max(st["gen"]["size"] for j in jobs for st in j["steps"] if "gen" in st)),
+                    byte_classes=C06_CLASSES, drivers=sorted(set(c[1] for c in configs)), predicate_failures_all_properties=dict(per_name))
+    assumptions = ["TLC never sees bytes: 'all payloads' is covered by a seeded generator over lengths/classes/splittings, not enumerated",
+                   "the 100 MiB cases run in the thorough tier only"]
+    rc = report(pid, tier, "exploration", found, coverage, assumptions, t0, notes)
+    shutil.rmtree(wd, ignore_errors=True)
+    return rc
+
+
+# ---------------------------------------------------------------- FIXTURE engine (C19)
+
+def engine_fix(pid, tier):
+    import crashplan as cp
+    t0 = time.time()
+    binary = build_harness()
+    wd = workdir("fix")
+    fdir = os.path.join(ROOT, "fixtures")
+    names = sorted(d for d in os.listdir(fdir) if os.path.isdir(os.path.join(fdir, d)))
+    if len(names) < 2:
+        raise ToolError("fixture corpus missing (tools/gen_fixtures.py)")
+    scratch = os.path.join("/dev/shm" if os.path.isdir("/dev/shm") else wd, f"tcss-fix-{os.getpid()}")
+    shutil.rmtree(scratch, ignore_errors=True)
+    try:
+        images, samples = [], []
+        reps = 1 if tier == "quick" else 3          # thorough: also re-open repeatedly / different continuations
+        run = 1
+        for n in names:
+            evs = cp.read_events(os.path.join(fdir, n, "trace.ndjson"))
+            meta = json.load(open(os.path.join(fdir, n, "meta.json")))
+            for r in range(reps):
+                d = os.path.join(scratch, f"{n}-{r}")
+                os.makedirs(d)
+                for f in meta["files"]:
+                    shutil.copy(os.path.join(fdir, n, f), os.path.join(d, f))
+                images.append(dict(dir=d, prefix=evs, k=0, variant="fixture:" + n, run=run))
+                run += 1
+            if len(samples) < 3:
+                samples.append({"fixture": n, "how": meta["how"], "acknowledged_requests": meta["requests_acknowledged"], "in_flight": meta["in_flight"], "files": meta["files"]})
+        nclients = max(len(im["prefix"][0]["clients"]) for im in images)
+        cont = []
+        for c in range(1, 4):
+            cont += [{"op": "Walk", "c": c, "from": {"sym": "base"}}, {"op": "GetSnapshot", "c": c}, {"op": "Walk", "c": c, "from": {"sym": "snap"}},
+                     {"op": "GetChildVersion", "c": c, "arg": {"sym": "anc", "k": 1}}]
+        for c in range(1, 4):
+            cont += [{"op": "AddVersion", "c": c, "arg": {"sym": "latest"}}, {"op": "AddVersion", "c": c, "arg": {"sym": "latest"}},
+                     {"op": "AddSnapshot", "c": c, "arg": {"sym": "latest"}}, {"op": "GetSnapshot", "c": c}, {"op": "Walk", "c": c, "from": {"sym": "base"}}]
+        cont += [{"op": "Reopen"}] + [{"op": "Walk", "c": c, "from": {"sym": "base"}} for c in range(1, 4)]
+        files = []
+        from concurrent.futures import ThreadPoolExecutor
+        nb = min(NCPU, len(images))
+        batches = [images[i::nb] for i in range(nb)]
+
+        def rec(bi):
+            b = batches[bi]
+            # a fixture with fewer clients gets only the continuation steps of its clients
+            outs = []
+            for j, im in enumerate(b):
+                ncl = len(im["prefix"][0]["clients"])
+                pf = os.path.join(wd, f"rec{bi}-{j}.json")
+                of = os.path.join(wd, f"rec{bi}-{j}.ndjson")
+                json.dump({"images": [im], "continuation": [s for s in cont if s.get("c", 1) <= ncl]}, open(pf, "w"))
+                run_harness(binary, ["recover", pf, of], timeout=1200)
+                outs.append(of)
+            return outs
+        with ThreadPoolExecutor(max_workers=nb) as ex:
+            for outs in ex.map(rec, range(nb)):
+                files += outs
+        chunks = split_trace(files, os.path.join(wd, "chunks"))
+        viols, total = judge(chunks)
+        found = []
+        for v in viols:
+            names_ = [n for n in v["names"] if n not in NOTE_NAMES]
+            if not names_:
+                continue
+            run_evs = load_run(v["file"], v["run"])
+            crash = next((e for e in run_evs if e.get("ev") == "Crash"), {})
+            ev = load_event(v["file"], v["line"])
+            sig = dict(engine="fix", fixture=str(crash.get("variant", "")).split(":")[-1], event=ev.get("ev"), names=sorted(names_))
+            what = (f"C19: fixture {crash.get('variant')} opened by the current code: predicate(s) {names_} false at event {ev.get('ev')} "
+                    f"{json.dumps(ev.get('req'))} -> {json.dumps(ev.get('resp'))} integrity={ev.get('integrity')} msg={ev.get('msg')}")
+            found.append(dict(sig=sig, what=what[:1500], replay=dict(engine="fix", predicate=pid, fixture=sig["fixture"], events=run_evs[-8:])))
+        nev, ops, _ = count_events(chunks)
+        coverage = dict(evaluations=len(images), distinct_nontrivial=len(names),
+                        rule="each committed fixture (a data directory written by the pinned tree a6bc6ed: 4 histories x {cleanly closed, killed inside a transaction at two "
+                             "points with leftover -wal/-shm}) is copied, opened by the current code, checked with PRAGMA integrity_check and projected; the "
+                             "stored trace of the producing history supplies the expected logical content (ghost), a continuation appends to every chain; TLC "
+                             "judges Recovered and all continuation steps; distinct = fixtures",
+                        samples=samples, fixtures=names, events_judged=total, outcome_counts={f"{op}/{k}": n for (op, k), n in sorted(ops.items())})
+        assumptions = ["the corpus was produced once by tools/gen_fixtures.py from a temporary worktree of the pinned commit and is committed",
+                       "a finite sample of histories / payload sizes (up to 1 MiB)"]
+        return report(pid, tier, "exploration", found, coverage, assumptions, t0)
+    finally:
+        shutil.rmtree(scratch, ignore_errors=True)
+        shutil.rmtree(wd, ignore_errors=True)
+
+
+# ---------------------------------------------------------------- BIN engine (C17): the real executable
+
+def free_ports(n):
+    import socket
+    socks, ports = [], []
+    for _ in range(n):
+        s_ = socket.socket()
+        s_.bind(("127.0.0.1", 0))
+        socks.append(s_)
+        ports.append(s_.getsockname()[1])
+    for s_ in socks:
+        s_.close()
+    return ports
+
+
+def have_ipv6():
+    import socket
+    try:
+        s_ = socket.socket(socket.AF_INET6)
+        s_.bind(("::1", 0))
+        s_.close()
+        return True
+    except Exception:
+        return False
+
+
+def bin_steps(days, versions, allow):
+    st = []
+    av = lambda c, a=None: {"op": "AddVersion", "c": c, "arg": a or {"sym": "latest"}}
+    st += [av(1, {"sym": "nil"}), {"op": "GetChildVersion", "c": 1, "arg": {"sym": "nil"}}, av(1), {"op": "AddSnapshot", "c": 1, "arg": {"sym": "latest"}}]
+    nver = min(versions + versions // 2 + 1, 9) if versions <= 6 else 3
+    for _ in range(nver):                      # urgency by versions-since: none -> low -> high
+        st.append(av(1))
+    st += [av(2, {"sym": "rnd", "k": 1}), av(2), {"op": "GetSnapshot", "c": 2}, {"op": "AddSnapshot", "c": 2, "arg": {"sym": "latest"}}]
+    # the third client (unlisted when a list is configured) on all four endpoints
+    st += [av(3, {"sym": "nil"}), {"op": "GetChildVersion", "c": 3, "arg": {"sym": "nil"}}, {"op": "AddSnapshot", "c": 3, "arg": {"sym": "latest"}},
+           {"op": "GetSnapshot", "c": 3}]
+    st += [{"op": "AddSnapshot", "c": 1, "arg": {"sym": "latest"}}, av(1)]
+    if days > 0:                               # urgency by age: low at `days`, high at 1.5 x days
+        st += [{"op": "SetDayRel", "by": max(days - 1, 1)}, av(2), {"op": "SetDayRel", "by": 1}, av(1), av(2),
+               {"op": "SetDayRel", "by": days // 2 + 1}, av(1), av(2)]
+    else:
+        st += [av(1), av(2)]
+    st += [{"op": "Reopen"},                   # SIGKILL and restart on the same directory
+           {"op": "Walk", "c": 1, "from": {"sym": "base"}}, {"op": "Walk", "c": 2, "from": {"sym": "base"}}, {"op": "GetSnapshot", "c": 1},
+           av(1), {"op": "GetChildVersion", "c": 1, "arg": {"sym": "anc", "k": 1}}, av(1, {"sym": "first"}), av(3),
+           {"op": "GetChildVersion", "c": 3, "arg": {"sym": "nil"}}, {"op": "Reopen"}, {"op": "Walk", "c": 1, "from": {"sym": "base"}},
+           {"op": "GetSnapshot", "c": 2}, av(2)]
+    return st
+
+
+def engine_bin(pid, tier):
+    import uuid as uuidlib
+    t0 = time.time()
+    rng = random.Random(seed() * 7 + 12345)
+    binary = build_harness()
+    server = build_server_bin()
+    wd = workdir("bin")
+    scratch = os.path.join("/dev/shm" if os.path.isdir("/dev/shm") else wd, f"tcss-bin-{os.getpid()}")
+    shutil.rmtree(scratch, ignore_errors=True)
+    os.makedirs(scratch)
+    try:
+        ipv6 = have_ipv6()
+        n = 8 if tier == "quick" else 48
+        # pairwise-ish cover: cycle each dimension with co-prime periods, then seeded random
+        days_v = [0, 1, 2, 3, 14]
+        vers_v = [0, 1, 2, 3, 5, 100]
+        allow_v = [None, [1], [1, 2], [2]]
+        jobs, cfgs = [], []
+        for k in range(n):
+            days = days_v[k % len(days_v)] if k < 10 else rng.choice(days_v + [7])
+            versions = vers_v[(k * 5 + 1) % len(vers_v)] if k < 12 else rng.choice(vers_v)
+            allow = allow_v[k % len(allow_v)]
+            nlisten = 1 + k % 3
+            ports = free_ports(nlisten)
+            forms = ["127.0.0.1:%d", "localhost:%d", "[::1]:%d" if ipv6 else "127.0.0.1:%d"]
+            listen = [forms[(k + i) % 3] % ports[i] for i in range(nlisten)]
+            uu = [str(uuidlib.UUID(int=rng.getrandbits(128), version=4)) for _ in range(3)]
+            data_dir = os.path.join(scratch, f"data{k}", "nested")        # must be created by the server
+            cwd = os.path.join(scratch, f"cwd{k}")
+            os.makedirs(cwd)
+            args, env = [], {}
+            by = [(k >> i) & 1 for i in range(5)]                      # each option by flag (0) or environment (1)
+            if by[0]:
+                env["LISTEN"] = ",".join(listen)
+            else:
+                for a in listen:
+                    args += [rng.choice(["--listen", "-l"]), a]
+            if by[1]:
+                env["DATA_DIR"] = data_dir
+            else:
+                args += [rng.choice(["--data-dir", "-d"]), data_dir]
+            if allow is not None:
+                ids = [uu[i - 1] for i in allow]
+                if by[2]:
+                    env["CLIENT_ID"] = ",".join(ids)
+                else:
+                    for u in ids:
+                        args += [rng.choice(["--allow-client-id", "-C"]), u]
+            if by[3]:
+                env["SNAPSHOT_DAYS"] = str(days)
+            else:
+                args += ["--snapshot-days", str(days)]
+            if by[4]:
+                env["SNAPSHOT_VERSIONS"] = str(versions)
+            else:
+                args += ["--snapshot-versions", str(versions)]
+            clock = os.path.join(scratch, f"clock{k}")
+            open(clock, "w").write("0\n")
+            cfgs.append(dict(k=k, listen=listen, data_dir=data_dir, cwd=cwd, allow=allow, days=days, versions=versions, args=args, env=env))
+            jobs.append({"id": f"bin{k}", "run": k + 1, "backend": "sqlite", "driver": "bin", "dir": data_dir,
+                         "cfg": {"days": days, "versions": versions}, "nclients": 3, "client_uuids": uu, "allow": allow, "first_free": 1,
+                         "bin": {"path": server, "listen": listen, "args": args, "env": env, "cwd": cwd, "clock_file": clock},
+                         "steps": bin_steps(days, versions, allow), "kind": "binary"})
+        plan = {"threads": 1, "needs_clock": True, "jobs": jobs}
+        t1 = time.time()
+        summ, files = run_harness_sharded(binary, "seq", plan, wd, nproc=min(8, len(jobs)))
+        t2 = time.time()
+        chunks = split_trace(files, os.path.join(wd, "chunks"))
+        viols, total = judge(chunks)
+        log(f"[bin] build {t1-t0:.1f}s run {t2-t1:.1f}s judge {time.time()-t2:.1f}s events {total}")
+        jobs_by_run = {j["run"]: j for j in jobs}
+        found = []
+        for v in viols:
+            names_ = [x for x in v["names"] if x not in NOTE_NAMES]
+            if not names_:
+                continue
+            ev = load_event(v["file"], v["line"])
+            c = cfgs[v["run"] - 1]
+            sig = dict(engine="bin", names=sorted(names_), op=ev["req"]["op"], resp=ev["resp"]["kind"], nlisten=len(c["listen"]),
+                       allow=c["allow"] is not None)
+            what = (f"C17: real binary started with args {c['args']} env {c['env']} (targets days={c['days']} versions={c['versions']}, allow={c['allow']}): "
+                    f"predicate(s) {names_} false at step {v['i']}: {json.dumps(ev['req'])} -> {json.dumps(ev['resp'])} msg={ev.get('msg')} "
+                    f"http={json.dumps(ev.get('http', {}).get('status'))} day={ev.get('day')}")
+            found.append(dict(sig=sig, what=what[:1800], replay=dict(engine="bin", predicate=pid, config=c)))
+        # the data must be in the configured directory and nowhere else
+        for c in cfgs:
+            db = os.path.join(c["data_dir"], "taskchampion-sync-server.sqlite3")
+            stray = os.listdir(c["cwd"])
+            if not os.path.exists(db) or stray:
+                found.append(dict(sig=dict(engine="bin", names=["datadir"]), what=f"C17: data directory not honoured: {db} exists={os.path.exists(db)}, files in the working directory: {stray}; args {c['args']} env {c['env']}",
+                                  replay=dict(engine="bin", predicate=pid, config=c)))
+        for e in summ.get("errors", []):
+            found.append(dict(sig=dict(engine="bin", names=["start"]), what="C17: " + e[:500], replay=dict(engine="bin")))
+        nev, ops, _ = count_events(chunks)
+        addr_forms = collections.Counter(a.split(":")[0] if not a.startswith("[") else "[::1]" for c in cfgs for a in c["listen"])
+        coverage = dict(evaluations=len(cfgs), distinct_nontrivial=len({(c["days"], c["versions"], json.dumps(c["allow"]), len(c["listen"]), json.dumps(sorted(c["env"]))) for c in cfgs}),
+                        rule="configurations drawn over listen addresses (1-3; 127.0.0.1 / localhost / [::1]), data directory (nested, not pre-created), allow-list "
+                             "(none / one / two ids), snapshot-days, snapshot-versions, each by flag or environment variable; the unmodified executable built from "
+                             "/repo is started, driven over every listen address (round robin), SIGKILLed and restarted twice; TLC judges the recorded exchanges with "
+                             "the model constants set from the drawn configuration (urgency C12, allow-list C16, history after restart C01/C07, ...); distinct = "
+                             "distinct (targets, allow-list, number of addresses, which options came from the environment)",
+                        samples=[{"args": c["args"], "env": c["env"]} for c in cfgs[:3]], events_judged=total,
+                        outcome_counts={f"{op}/{k}": n for (op, k), n in sorted(ops.items())}, listen_forms=dict(addr_forms), ipv6=ipv6)
+        assumptions = ["loopback only; the clock of the child process is shifted by the LD_PRELOAD shim through a file", "state is projected by opening the configured data directory with the SQLite backend"]
+        return report(pid, tier, "exploration", found, coverage, assumptions, t0)
+    finally:
+        shutil.rmtree(scratch, ignore_errors=True)
+        shutil.rmtree(wd, ignore_errors=True)
+
+
 # ---------------------------------------------------------------- dispatch
 
 ENGINES = {}
@@ -1087,6 +1464,9 @@ ENGINES["C12"] = engine_urg
 ENGINES["C03"] = engine_conc
 ENGINES["C05"] = engine_fault
 ENGINES["C04"] = engine_crash
+ENGINES["C06"] = engine_bytes
+ENGINES["C19"] = engine_fix
+ENGINES["C17"] = engine_bin
 ENGINES["C09"] = engine_lock
 ENGINES["C13"] = engine_lock
 
